@@ -48,7 +48,7 @@ EndRun ==
   /\ writer' = "" /\ readers' = {}
   /\ pc' = [g \in Gs |-> 1] /\ kind' = [g \in Gs |-> ""]
   /\ seen' = [g \in Gs |-> EmptyFile] /\ scan' = [g \in Gs |-> EmptyFile]
-  /\ hmode' = [g \in Gs |-> ""] /\ trunc' = [g \in Gs |-> FALSE]
+  /\ hmode' = [g \in Gs |-> ""] /\ trunc' = [g \in Gs |-> FALSE] /\ tmp' = [g \in Gs |-> EmptyFile]
   /\ out' = [g \in Gs |-> ""] /\ step' = [g |-> "", op |-> "init"]
   /\ UNCHANGED done
 
